@@ -192,6 +192,9 @@ def text_case(draw):
     c = draw(gen.sampled_case(binning=binning, elem=text_value, min_samples=1, max_samples=draw(st.sampled_from([6, 6, 14]))))
     c["cls"] = draw(st.sampled_from(["CorrData", "RedshiftData", "HistData"]))
     c["prefix"] = draw(st.sampled_from(["product", "product", "nz_z0.2-1.4", "result.v2", "a.b.c"]))
+    # an earlier product written to and read from the same prefix by the same process (a re-run
+    # of an analysis with other settings): the later round trip must not see anything of it
+    c["earlier"] = draw(st.sampled_from([None, None, "other-closed-side", "scaled-values"]))
     return c
 
 
@@ -233,6 +236,18 @@ def run_text(case):
     obj = gen.build_sampled(case, cls)
     with Scratch() as tmp:
         prefix = tmp / case.get("prefix", "product")
+        if case.get("earlier"):
+            old = dict(case)
+            if case["earlier"] == "other-closed-side":
+                old["binning"] = dict(case["binning"], closed="left" if case["binning"]["closed"] == "right" else "right")
+            else:
+                old["data"] = (np.array(case["data"], float) * 3.0 + 1.0).tolist()
+                old["samples"] = (np.array(case["samples"], float) * 3.0 + 1.0).tolist()
+            with np.errstate(all="ignore"):
+                ok, _ = ck.call(lambda: (gen.build_sampled(old, cls).to_files(prefix), cls.from_files(prefix)), "earlier-product")
+            if not ok:
+                return ck.results()
+            ck.cls(f"earlier-product-at-same-prefix:{case['earlier']}")
         with np.errstate(all="ignore"):
             ok, _ = ck.call(lambda: obj.to_files(prefix), f"to_files:bins={'1' if nb == 1 else 'n'}")
         if not ok:
